@@ -411,6 +411,9 @@ class Gen:
             r = self.term_ref(crit=True)
             if r is not None:
                 return r
+        if d >= 1 and self.p(0.08):
+            # an aliased criterion (criteria are selectable terms too)
+            return {"t": "meth", "x": self.g_crit(d - 1, scope), "m": "as_", "a": [self.new_alias()]}
         if d <= 0:
             c = self.wch([("cmp", 6), ("isnull", 1), ("like", 1), ("isin", 1.5), ("between", 1)])
         else:
@@ -836,7 +839,7 @@ class Gen:
         "insert": 2, "columns": 1.5, "on_conflict": 1.2, "do_update": 1.2, "force_index": 1.5, "use_index": 1.2,
         "rollup": 1.5, "with_": 1, "union": 1, "replace_table": 1.2, "as_": 0.8, "when": 3, "filter": 3,
         "over": 3, "distinct_on": 2.5, "returning": 2.5, "modifier": 3, "for_update": 1.2, "unique": 2,
-        "period_for": 1.5, "delete": 0.3, "update": 0.3, "into": 0.5, "__getitem__": 0.5, "__add__": 0.3,
+        "period_for": 1.5, "for_": 2.5, "for_portion": 1.5, "delete": 0.3, "update": 0.3, "into": 0.5, "__getitem__": 0.5, "__add__": 0.3,
         "__mul__": 0.3, "__sub__": 0.3, "prewhere": 0.8, "with_totals": 0.4, "distinct": 0.8, "do_nothing": 0.6,
         "top": 1.5, "fetch_next": 1.2, "limit": 1, "offset": 1, "slice": 0.8, "replace": 0.8,
     }
@@ -1335,6 +1338,12 @@ class Gen:
              "a": ["2020-01-01"]}
         if c["m"] == "between":
             c["a"] = ["2020-01-01", "2020-02-01"]
+        if self.p(0.5):
+            r = self.term_ref(crit=True)  # a shared criterion object as the temporal clause
+            if r is not None:
+                c = r
+        elif self.p(0.2):
+            c = {"t": "meth", "x": c, "m": "as_", "a": [self.new_alias()]}
         return {"m": "for_", "a": [c]}, scope
 
     def r_for_portion(self, v, kd, ri, scope):
